@@ -126,7 +126,7 @@ func ownCodecName(v reflect.Value) (string, bool) {
 
 // fillEmbeddedPointers sets the nil embedded pointers of a struct, at every
 // level of embedding (a promoted method may sit behind several of them); a
-// type that embeds itself is filled once. It reports false for an embedded
+// type that embeds itself is not filled again inside itself. It reports false for an embedded
 // pointer that cannot be set.
 func fillEmbeddedPointers(v reflect.Value, seen map[reflect.Type]bool) bool {
 	for i := 0; i < v.NumField(); i++ {
@@ -153,8 +153,12 @@ func fillEmbeddedPointers(v reflect.Value, seen map[reflect.Type]bool) bool {
 			f = n.Elem()
 		}
 		if f.Kind() == reflect.Struct && !seen[f.Type()] {
+			// (seen holds the types on the path from the outermost struct: a
+			// type reached twice over different paths is filled both times)
 			seen[f.Type()] = true
-			if !fillEmbeddedPointers(f, seen) {
+			ok := fillEmbeddedPointers(f, seen)
+			delete(seen, f.Type())
+			if !ok {
 				return false
 			}
 		}
